@@ -12,6 +12,7 @@ structure St where
   a : Array Rat := #[]
   b : Array Rat := #[]
   sample : List String := []
+  bitsDependOnThreads : Nat := 0
 
 def hexF (s : String) : Float := (Hex.parseFloat s).getD 0.0
 def hexR (s : String) : Rat := (Hex.parseDouble s).getD 0
@@ -27,11 +28,12 @@ def step (st : St) (line : String) : IO St := do
       IO.println s!"ORACLE C12 {op} {msg}: {(line.take 400).toString}"
       return { st with oracleFails := st.oracleFails + 1 }
     if (kv rest "repeats_identical") != some "1" then st ← fail "is not bit-for-bit reproducible from run to run at a fixed thread count" st
-    if (kv rest "threads_ge2_identical") != some "1" then st ← fail "gives different bits for different thread counts >= 2" st
-    -- gather ("take") kernels and transfers compute every entry in a fixed order: identical to the single-threaded run as well
-    let ownerComputes := (op.splitOn "take").length > 1 ∨ op == "prolong" ∨ op == "restrict" ∨ op == "fmg"
-    if ownerComputes ∧ (kv rest "one_thread_identical") != some "1" then st ← fail "differs from the single-threaded result although every entry is computed by one iteration" st
-    -- scatter kernels: re-association only
+    -- The property allows a change of the thread count to change the bits by floating-point re-association, so bit-identity
+    -- ACROSS thread counts is recorded (it happens to hold for every single operator on the unchanged tree, and fails for whole
+    -- solves because the `reduction(+)` norms are chunked differently) but is not an oracle.  [false alarm of the first
+    -- thorough run, DESIGN.md R.5]
+    if (kv rest "threads_ge2_identical") != some "1" then st := { st with bitsDependOnThreads := st.bitsDependOnThreads + 1 }
+    -- across thread counts: re-association only
     let w := hexF ((kv rest "worst_vs_1").getD "")
     let solveLike := (op.splitOn "smoother").length > 1 ∨ (op.splitOn "direct").length > 1 ∨ (op.splitOn "solve").length > 1
     let bound : Float := if solveLike then 1e-6 else 1e-11
@@ -67,7 +69,7 @@ def step (st : St) (line : String) : IO St := do
 def main : IO UInt32 := do
   let st ← forLines (← IO.getStdin) ({} : St) step
   let s := st.stats
-  IO.println s!"SUMMARY kind=par cases={s.cases} checks={s.checks} diffs={s.diffs} rejects={s.rejects} operator_records={st.ops} vector_kernel_records={st.vecs} oracle_fails={st.oracleFails}"
+  IO.println s!"SUMMARY kind=par cases={s.cases} checks={s.checks} diffs={s.diffs} rejects={s.rejects} operator_records={st.ops} vector_kernel_records={st.vecs} oracle_fails={st.oracleFails} records_whose_bits_depend_on_the_thread_count={st.bitsDependOnThreads}"
   for x in st.sample do IO.println s!"SAMPLE {x}"
   return (if s.diffs == 0 ∧ s.rejects == 0 ∧ st.oracleFails == 0 then 0 else 1)
 end ParDrv
